@@ -4,6 +4,7 @@ import CheetahModel.DriverElems
 import CheetahModel.DriverBmadx
 import CheetahModel.DriverDual
 import CheetahModel.DriverDiag
+import CheetahModel.DriverSC
 /-!
 # Line-protocol driver
 
@@ -18,7 +19,7 @@ def parseF (s : String) : Option Float := s.toNat?.map fun n => Float.ofBits n.t
 def fmtF (x : Float) : String := toString x.toBits.toNat
 
 def floatOps : List (String → Array Float → Option (List Float)) :=
-  [Drv.mapsOp, DrvEl.elemsOp, DrvB.bmadxOp, DrvD.dualOp, DrvG.diagOp]
+  [Drv.mapsOp, DrvEl.elemsOp, DrvB.bmadxOp, DrvD.dualOp, DrvG.diagOp, DrvS.scOp]
 
 def runFloatOp (op : String) (a : Array Float) : Option (List Float) :=
   floatOps.findSome? fun f => f op a
